@@ -237,6 +237,7 @@ type symExec struct {
 	inlineMemo      map[*types.Func]bool
 	assignCounts    map[types.Object]int
 	singletons      map[types.Object]bool
+	pinned          map[types.Object]bool // canonical names that value changes do not undo (loop counters)
 	inlineAll       bool
 	primitive       map[*types.Func]bool // never inlined: recorded as events
 	noRet           map[*types.Func]int  // 1 = never returns (every path panics), 2 = returns
@@ -1916,7 +1917,37 @@ func (se *symExec) loopTrips(x *ast.ForStmt, st *sstate) *lin {
 	return nil
 }
 
+// loopCounter: the variable stepped by the post statement of a three-clause loop.
+func (se *symExec) loopCounter(x *ast.ForStmt) types.Object {
+	var e ast.Expr
+	switch p := x.Post.(type) {
+	case *ast.IncDecStmt:
+		e = p.X
+	case *ast.AssignStmt:
+		if len(p.Lhs) == 1 {
+			e = p.Lhs[0]
+		}
+	}
+	if id := identOf(e); id != nil {
+		if o := se.info.Uses[id]; o != nil {
+			return o
+		}
+		return se.info.Defs[id]
+	}
+	return nil
+}
+
 func (se *symExec) execFor(x *ast.ForStmt, st *sstate) (fall []*sstate, rets []pathResult) {
+	// the counter of a counting loop is shown under a canonical name (k1 for the outermost loop, k2 inside it, …)
+	if o := se.loopCounter(x); o != nil && se.tableMode {
+		if _, named := se.params[o]; !named {
+			se.params[o] = fmt.Sprintf("k%d", len(loopStack)+1)
+			if se.pinned == nil {
+				se.pinned = map[types.Object]bool{}
+			}
+			se.pinned[o] = true
+		}
+	}
 	trips := se.loopTrips(x, st)
 	entry := st
 	if x.Init != nil {
@@ -1965,7 +1996,11 @@ func (se *symExec) loopCommon(pos token.Pos, body *ast.BlockStmt, whole ast.Node
 	// havoc every variable assigned in the loop
 	hav := entry.clone()
 	for _, o := range se.assignedIn(whole) {
-		hav.vars[o] = unk("loop:" + o.Name())
+		nm := o.Name()
+		if p, ok := se.params[o]; ok {
+			nm = p
+		}
+		hav.vars[o] = unk("loop:" + nm)
 	}
 	for _, o := range se.assignedIn(whole) {
 		hav.forget(o.Name())
@@ -2088,6 +2123,14 @@ func (se *symExec) loopHeader(n ast.Node) string {
 			}
 			if x.Post != nil {
 				post = strings.Join(strings.Fields(fullStmt(x.Post)), " ")
+			}
+			if o := se.loopCounter(x); o != nil {
+				if nm, ok := se.params[o]; ok && nm != o.Name() {
+					ini = replaceIdent(ini, o.Name(), nm)
+					post = replaceIdent(post, o.Name(), nm)
+					// `k := a` and `k = a` initialise the counter alike
+					ini = strings.Replace(ini, nm+" := ", nm+" = ", 1)
+				}
 			}
 			return "for " + ini + "; " + strings.TrimPrefix(h, "for ") + "; " + post
 		}
@@ -2415,7 +2458,7 @@ func (se *symExec) nameByDesc(obj types.Object, v val) {
 	}
 	if v.kind == vUnknown && v.desc != "" && v.lit == nil && (strings.HasPrefix(v.desc, "node") || strings.HasPrefix(v.desc, "{node")) {
 		se.params[obj] = v.desc
-	} else if _, ok := se.params[obj]; ok && v.kind != vUnknown {
+	} else if _, ok := se.params[obj]; ok && v.kind != vUnknown && !se.pinned[obj] {
 		delete(se.params, obj)
 	}
 }
